@@ -246,6 +246,12 @@ func checkDir(c *DirCase) (msg string, badBeforeGood bool) {
 			if out != f.text {
 				return fmt.Sprintf("file %s does not parse but was modified: %s", f.e.Name, firstDiff(f.text, out)), badBeforeGood
 			}
+		case f.e.Kind == "broken":
+			// a byte mutation that left the file parseable (it hit a comment or a string): the
+			// file may now lie outside the property's domain (e.g. a back quote inside an
+			// injected value, which no raw-string tag literal can hold), so only
+			// "the tool did not crash and the entry still exists" is asserted for it
+			ev.Class("mutated-file-still-parses (crash-freedom only)")
 		case f.e.Src != nil:
 			if m := verifyInjected(f.text, f.spans, out); m != "" {
 				return fmt.Sprintf("valid file %s (after unprocessable neighbours): %s", f.e.Name, m), badBeforeGood
